@@ -6,5 +6,5 @@ export CARGO_NET_OFFLINE=true
 mkdir -p .cache evidence replays
 bash tools/mkcoqproject.sh
 ( cd coq && timeout 7200 make -j16 -f Makefile.coq > ../.cache/coq_build.log 2>&1 ) || { tail -50 .cache/coq_build.log; echo "coq build failed"; exit 1; }
-( cd harness && CARGO_TARGET_DIR=$PWD/../.cache/target timeout 7200 cargo build --offline > ../.cache/harness_build.log 2>&1 ) || { tail -50 .cache/harness_build.log; echo "harness build failed"; exit 1; }
+( cd harness && CARGO_TARGET_DIR=$PWD/../.cache/target timeout 7200 cargo build --offline --bins > ../.cache/harness_build.log 2>&1 ) || { tail -50 .cache/harness_build.log; echo "harness build failed"; exit 1; }
 echo "setup ok"
